@@ -42,6 +42,12 @@ def _mkerr(kind):
         return OSError(errno.EINTR, 'Interrupted system call')
     if kind == 'eagain-partial':
         return OSError(errno.EAGAIN, 'Resource temporarily unavailable')
+    if kind == 'kbint':
+        # Ctrl-C / a signal handler that raises, delivered while the thread is in the system call (nothing written yet):
+        # not an Exception - the application catches it and goes on using the connection
+        return KeyboardInterrupt()
+    if kind == 'sysexit':
+        return SystemExit('injected: a signal handler called sys.exit() during the write')
     if kind == 'sslerr':
         import ssl
         return ssl.SSLError(1, '[SSL] injected record failure')
